@@ -86,7 +86,7 @@ def exampleStore : St :=
     objs := [⟨"KA", "xr-abc", "a", .xr, false, false, 1, true⟩, ⟨"KB", "xr-def", "b", .xr, true, true, 0, true⟩] }
 
 example : Good exampleStore := by
-  refine ⟨by decide, by decide, by decide, ?_⟩
+  refine ⟨by decide, by decide, by decide, ?_, by intro o h; cases h⟩
   intro o1 h1 o2 h2 _ _ ha _
   simp only [exampleStore, List.mem_cons, List.mem_nil_iff, or_false] at h1 h2
   rcases h1 with rfl | rfl <;> rcases h2 with rfl | rfl <;> first | rfl | (simp at ha)
